@@ -19,11 +19,15 @@ type zzVal struct {
 	f      float64
 	b      bool
 	bad    bool // ill-typed
+	unspec bool // value not fixed by the documentation (only "does not panic" is demanded)
 }
 
 func zzApplyOp(op int, a, b zzVal) zzVal {
 	if a.bad || b.bad {
 		return zzVal{bad: true}
+	}
+	if a.unspec || b.unspec {
+		return zzVal{unspec: true}
 	}
 	switch {
 	case op <= 4: // arithmetic: numbers only
@@ -43,7 +47,9 @@ func zzApplyOp(op int, a, b zzVal) zzVal {
 				return zzVal{f: math.NaN()}
 			}
 			if math.IsNaN(a.f) || math.IsNaN(b.f) || math.IsInf(a.f, 0) || int64(b.f) == 0 {
-				return zzVal{bad: true} // int64 conversion of NaN/Inf or zero divisor after truncation: outside the documented typing
+				// int64 conversion of NaN/Inf, or a divisor that truncates to zero (0.5): the
+				// documentation does not say what the value is, but evaluation must not panic
+				return zzVal{unspec: true}
 			}
 			return zzVal{f: float64(int64(a.f) % int64(b.f))}
 		case 3:
@@ -186,6 +192,10 @@ func ZZ_C20_H1() {
 		return
 	}
 	got := e.run("", nil)
+	if want.unspec {
+		zz.Cover("unspecified-value-evaluated", true)
+		return
+	}
 	zz.Cover("bool-result", want.isBool)
 	zz.Cover("nan-result", !want.isBool && math.IsNaN(want.f))
 	if want.isBool {
@@ -226,7 +236,7 @@ func ZZ_C20_H2() {
 		}
 	}
 	want, _ := zzRefEval(vals, ops, 0, k, 1)
-	zz.Assume(!want.bad && !math.IsNaN(want.f) && !math.IsInf(want.f, 0))
+	zz.Assume(!want.bad && !want.unspec && !math.IsNaN(want.f) && !math.IsInf(want.f, 0))
 	// the literal to look for: the reference value itself or a different number
 	target := want.f
 	if zz.Choose("miss", 2) == 1 {
@@ -267,7 +277,7 @@ func zzFmtInt(n int) string {
 // && || == != in either operand order. The documented truthiness rule (a value is true unless it
 // is 0, ” or nil) fixes the result; evaluation must not panic for any field value.
 func ZZ_C20_H3() {
-	vi := zz.Choose("fieldValue", 8)
+	vi := zz.Choose("fieldValue", 10)
 	var v interface{}
 	truthy := false
 	isBool := false
@@ -288,6 +298,27 @@ func ZZ_C20_H3() {
 		v = ""
 	case 7:
 		v, truthy = "ab", true
+	case 8:
+		v = []int{} // a slice-typed field: its value is the slice itself
+	case 9:
+		v = []int{1, 2}
+	}
+	if vi >= 8 {
+		// slices: the documentation fixes no truth value; the field compared with itself and the
+		// reference inside a logical expression only have to evaluate without panicking
+		for _, expr := range []string{"$ == $", "$ != $", "!$ || $ == $", "len($) > 0 && $ == $"} {
+			t := &TagExpr{s: &structVM{fields: map[string]*fieldVM{
+				"F": {valueGetter: func(unsafe.Pointer) interface{} { return v }},
+			}}}
+			e, err := parseExpr(expr)
+			zz.Assert("parses", err == nil)
+			if err == nil {
+				_ = e.run("F", t)
+			}
+		}
+		zz.Cover("slice-field", true)
+		zz.Cover("reached-assert", true)
+		return
 	}
 	bangs := zz.Choose("bangs", 3)
 	op := zz.Choose("operator", 4) // && || == !=
